@@ -73,6 +73,21 @@ Theorem isolated_stream_body_partial : forall j h e L pl pose,
 Proof. exact stream_pose_of_alone. Qed.
 Print Assumptions isolated_stream_body_partial.
 
+(* ... and without the hypothesis that the bytes read succeeds: two BytesIOReaders at the same (header, offset), whatever prefix of
+   the file each holds (the thread's prefetch length comes from a memo another thread may just have replaced; the solo read's from
+   an empty one), decode the same body or both raise.  With [isolated] this is the isolation of the whole pose for window reads of
+   streams, for every outcome. *)
+Theorem isolated_stream_body : forall file h a e L L' pl pl',
+  (e <= lenN (takeN L file))%N -> (e <= lenN (takeN L' file))%N ->
+  match run_stream file (read_body no_legacy h a) {| buf := takeN L file; off := e; skipped := 0%N; pulled := pl |},
+        run_stream file (read_body no_legacy h a) {| buf := takeN L' file; off := e; skipped := 0%N; pulled := pl' |} with
+  | Ok (b, _), Ok (b', _) => b = b'
+  | Err _, Err _ => True
+  | _, _ => False
+  end.
+Proof. exact stream_body_prefetch_irrelevant. Qed.
+Print Assumptions isolated_stream_body.
+
 (* without the lock (defect F13; also the mutant "remove the lock") the statement is false; the witness switches
    threads only at line boundaries: thread 0 passes the hash comparison, thread 1 stores another file's header,
    thread 0 returns it *)
